@@ -14,9 +14,12 @@ namespace hs
         unsigned       invalid_calls = 0;
         std::string    invalid_name;
         unsigned       overflow_calls = 0;
-        const void*    overflow_mem   = nullptr;
-        std::size_t    overflow_size  = 0;
-        const void*    overflow_ptr   = nullptr;
+        struct Overflow
+        {
+            const void* mem;
+            std::size_t size;
+            const void* ptr;
+        } overflow[4] = {};
         unsigned       oom_calls = 0, badsize_calls = 0;
         void           reset()
         {
@@ -103,6 +106,9 @@ namespace hs
         void op_mbs(const sim::Op& op);
         void op_reserve(const sim::Op& op);
         void op_foreign(const sim::Op& op);
+        void op_corrupt(const sim::Op& op);
+        void op_corsweep(const sim::Op& op);
+        std::size_t fence_of(ObjSt& S);
 
         // helpers
         ObjSt*   live_obj(long long which);
@@ -132,6 +138,6 @@ namespace hs
         std::size_t      fill_checks_ = 0;
         unsigned         moves_done_ = 0, last_calls_ = 0;
         int              next_owner_ = 0;
-        bool             in_destroy_ = false;
+        bool             in_destroy_ = false, expect_overflow_ = false;
     };
 } // namespace hs
